@@ -27,6 +27,7 @@ EXPLANATION = (
     "yield; one read of the processed offset feeds both the commit request and the value later recorded; "
     "must-hold `_commit_req is None` at the send; resume position in the same arm as the committed value."
     ' Also: the on-success recorder stores the acknowledged offset on every path whatever was recorded before (R5).'
+    " The feeder coroutine is also required to compare the start Deferred with the copy it took before the loop (the run it works for) on every path from an invocation to the wait for it and from that wait to the next invocation (a stop()+start() from inside the processor ends the run although `_start_d` is not None)."
 )
 SHARED = [('C05', ['R4'], 'a batch the client cannot decode (unknown compression) fails the fetch: it is not stepped over and committed past'),
           ('C13', ['R1'], 'stop() cancels a pending commit retry: a stopped consumer does not commit later'), ('C07', ['R5'], 'a commit reply that leaves the partition out is a failed commit, not an acknowledgement'), ('C14', ['R4'], 'the consumer leaves its position only for an out-of-range answer: no other error makes it jump, and later commit, past messages it never processed'), ('C09', ['R4'], 'a broker error on a commit surfaces as a failure (fail_on_error)'), ('C08', ['R3'], 'coordinator errors are handled, not swallowed'), ('C02', ['R6'], 'messages at or below the committed position are not redelivered after a restart'), ('C05', ['R5'], 'offsets of messages inside compressed wrappers are the log offsets: the committed offset is not ahead of what was processed')]
